@@ -32,6 +32,8 @@ func main() {
 		effects()
 	case "matrix":
 		matrix()
+	case "vta":
+		vtaCmd()
 	default:
 		fmt.Fprintln(os.Stderr, "unknown command", os.Args[1])
 		os.Exit(2)
@@ -222,4 +224,53 @@ func uniq(xs []string) []string {
 		}
 	}
 	return out
+}
+
+func vtaCmd() {
+	P := mustLoad()
+	edges, ext, nf, err := core.VTAEdgesExt(core.RepoDir())
+	if err != nil {
+		fmt.Println(err)
+		os.Exit(2)
+	}
+	chaSet := P.CHAEdgeSet()
+	r := P.FindRoots()
+	reach := P.Reach(r.All())
+	reachKey := map[string]bool{}
+	for f := range reach {
+		reachKey[P.Key(f)] = true
+	}
+	missing := 0
+	for _, e := range core.SortedKeys(edges) {
+		if chaSet[e] {
+			continue
+		}
+		caller := strings.SplitN(e, " → ", 2)[0]
+		if !reachKey[caller] {
+			continue
+		}
+		missing++
+		fmt.Println("MISSING", e)
+	}
+	mw := P.MayWrite()
+	byKey := map[string]*ssa.Function{}
+	for _, f := range P.Funcs {
+		byKey[P.Key(f)] = f
+	}
+	var eks []string
+	for k := range ext {
+		eks = append(eks, k)
+	}
+	sort.Strings(eks)
+	for _, k := range eks {
+		f := byKey[k]
+		if f == nil || reachKey[k] {
+			continue
+		}
+		if !mw[f] {
+			continue
+		}
+		fmt.Println("EXT-UNROOTED", k, "←", ext[k])
+	}
+	fmt.Printf("vta: %d functions, %d Elys→Elys edges, repo-CHA %d edges, missing (caller root-reachable) %d\n", nf, len(edges), len(chaSet), missing)
 }
